@@ -4,7 +4,7 @@
    cfg.transfer.snapshot / cfg.transfer.stored / cfg.redact.copied / cfg.redact.done, releasing them in the order TLC enumerated.
      race{id,prior,e}      fresh MOSN with real keys in a listener context, a cluster, the cluster manager and a filter config;
                            prior: a quiet persist has run before; e: the dump endpoint
-     step{s}               the step s (Ts Tw Tm Rc Rr Rm) was let run to its end
+     step{s}               the step s (Ts Tw Tm Rc Rr Rm Rw; Rw = the handler's WriteHeader was let through and the body written) was let run to its end
      result{diverged,persist_placeholder,persist_diff,leaked,live_diff}
                            persist_diff = paths where the bytes the raced persist produced differ from a quiet persist taken
                            afterwards; leaked = keys found in the response; live_diff = effective configuration before / after *)
@@ -12,12 +12,12 @@ EXTENDS ConfigRedactRace, VTrace
 
 tvars == <<vars, l>>
 
-TraceInit == /\ l = 1 /\ pP = "idle" /\ pD = "idle" /\ cell = "none" /\ rewritten = {} /\ out = "none" /\ resp = "none"
+TraceInit == /\ l = 1 /\ pP = "idle" /\ pD = "idle" /\ cell = "none" /\ rewritten = {} /\ out = "none" /\ resp = "none" /\ made = "none" /\ bufp = FALSE
              /\ prior = FALSE /\ ep = "full" /\ sched = <<>>
 
 TRace == /\ IsEvent("race")
          /\ Ev.e \in Endpoints
-         /\ pP' = "start" /\ pD' = "start" /\ cell' = "none" /\ rewritten' = {} /\ out' = "none" /\ resp' = "none"
+         /\ pP' = "start" /\ pD' = "start" /\ cell' = "none" /\ rewritten' = {} /\ out' = "none" /\ resp' = "none" /\ made' = "none" /\ bufp' = FALSE
          /\ prior' = Ev.prior /\ ep' = Ev.e /\ sched' = <<>>
 
 TStep == /\ IsEvent("step")
@@ -27,6 +27,7 @@ TStep == /\ IsEvent("step")
             \/ Ev.s = "Rc" /\ Rc
             \/ Ev.s = "Rr" /\ Rr
             \/ Ev.s = "Rm" /\ Rm
+            \/ Ev.s = "Rw" /\ Rw
 
 Pre == "race:" \o ep \o ":"
 
